@@ -145,7 +145,7 @@ def sim_paths(v, exe, n, nt, ops, num, seed, tag):
                       lambda pid: {"kind": "path", "n": n, "nt": nt, "states": lists[pid]})
     v.add("traces_validated_against_impl", len(lists))
     v.add("replayed_steps", rr.steps)
-    v.add("simulated_behaviours_3_threads", len(lists))
+    v.add("simulated_behaviours_replayed", len(lists))
     return len(lists)
 
 
